@@ -153,7 +153,7 @@ func TestC13(t *testing.T) {
 	})
 
 	runs := env.Pick(12, 48)
-	rapidRun(t, env, "inputs", env.Pick(64, 640), func(rt *rapid.T) {
+	rapidRun(t, env, "inputs", env.Pick(176, 1600), func(rt *rapid.T) {
 		pf := fullProfile()
 		pf.MaxIfaces, pf.MaxMethods, pf.MaxPairs = 3, 6, 3
 		p := pg.GenProg(rt, pf)
